@@ -25,4 +25,10 @@ def harnesses(ctx, tier):
                           bounds="all 64-bit arguments" if f == 1 else "2 blocks x <=3 bytes, |offset|,|length| < 2^40, any probe byte",
                           functions=["min", "max", "yr_math_abs", "to_number"] if f == 1 else ["count_range" if f == 2 else "mode_range", "get_distribution"],
                           stubs=["yr_object_set_integer sink", "block iterator"]))
+    hs.append(Harness(name="H3_digest_cache", src="c14/cache.c", includes=inc, unwind=7, timeout=900, flags=["--object-bits", "10"],
+                      unwind_funcs={"digest_to_ascii": 34, "memcmp": 18, "hash": 18, "yr_hash": 18, "memset": 40, "yr_hash_table_create": 4, "_yr_hash_table_lookup": 4, "strlen": 44, "strcpy": 44, "strcmp": 8, "yr_strdup": 44, "memcpy": 44},
+                      desc="hash.sha1/md5 called for range 1 then range 2 in one scan vs range 2 alone (digest cache keys)",
+                      bounds="1 block <= 4 bytes, offsets/lengths 0..5, both algorithms", functions=["data_sha1", "data_md5", "get_from_cache", "add_to_cache", "yr_hash_table_add_raw_key", "yr_hash_table_lookup_raw_key"],
+                      stubs=["OpenSSL EVP digest -> injective stand-in", "sprintf(%02x) contract", "yr_object_set_string sink"]))
     return hs
+
